@@ -314,7 +314,14 @@ func c08R2(p *core.Program, r *core.Report) {
 			continue // the file type's own reader and writer (R4, R5)
 		}
 		finfo := ff.Info()
-		ast.Inspect(ff.Body, func(n ast.Node) bool {
+		body := ast.Node(ff.Body)
+		if ff.Decl != nil && ff.Body != nil {
+			body = flatten(p, ff).Body // a file built field by field is the literal it stands for
+		}
+		if body == nil || ff.Body == nil {
+			continue
+		}
+		ast.Inspect(body, func(n ast.Node) bool {
 			if lit, isLit := n.(*ast.FuncLit); isLit && lit != ff.Lit {
 				return false
 			}
@@ -904,6 +911,33 @@ func hash1WithoutSumFile(p *core.Program, h *core.Func) (drops bool, why string)
 	if sumName == "" {
 		return false, "the sum file's name constant was not found in pkg/sumfile"
 	}
+	// the explicit in-place filter: `kept := files[:0]; for _, name := range files { if name != <sum file> { kept = append(kept,
+	// name) } }; clear(files[len(kept):]); return Hash1(kept, open)`
+	if kept, ok := explicitSumFileFilter(info, h, files, sumName); ok {
+		n, bad := 0, ""
+		ast.Inspect(h.Body, func(m ast.Node) bool {
+			if _, isLit := m.(*ast.FuncLit); isLit {
+				return false
+			}
+			ret, isRet := m.(*ast.ReturnStmt)
+			if !isRet {
+				return true
+			}
+			n++
+			c, isCall := (ast.Expr)(nil), false
+			if len(ret.Results) == 1 {
+				c, isCall = ast.Unparen(ret.Results[0]).(*ast.CallExpr)
+			}
+			if cc, _ := c.(*ast.CallExpr); !isCall || core.CalleeName(info, cc) != "golang.org/x/mod/sumdb/dirhash.Hash1" || len(cc.Args) != 2 || core.VarOf(info, cc.Args[0]) != kept || core.VarOf(info, cc.Args[1]) != open {
+				bad = "`" + core.ExprStr(ret) + "`"
+			}
+			return true
+		})
+		if n == 0 || bad != "" {
+			return true, "does not return dirhash.Hash1(<kept files>, open): " + bad
+		}
+		return true, ""
+	}
 	// every definition of files is the parameter itself filtered by the sum file's name
 	for _, d := range core.DefsOf(info, h.Body, files) {
 		c, isCall := ast.Unparen(d.Rhs).(*ast.CallExpr)
@@ -957,6 +991,93 @@ func hash1WithoutSumFile(p *core.Program, h *core.Func) (drops bool, why string)
 		return drops, "does not return dirhash.Hash1(files, open): " + bad
 	}
 	return drops, ""
+}
+
+// explicitSumFileFilter recognises the hand-written filter of the file list: a local defined as `files[:0]` (or declared
+// empty) and otherwise only by `kept = append(kept, name)` with name the value of a range over files, on the edge on which
+// name is known to differ from the sum file's name; files itself is not redefined (clearing its tail is fine).
+func explicitSumFileFilter(info *types.Info, h *core.Func, files *types.Var, sumName string) (*types.Var, bool) {
+	if len(core.DefsOf(info, h.Body, files)) != 0 {
+		return nil, false
+	}
+	g := graph(h)
+	var kept *types.Var
+	okAll := true
+	nApp := 0
+	ast.Inspect(h.Body, func(m ast.Node) bool {
+		as, isAs := m.(*ast.AssignStmt)
+		if !isAs || len(as.Lhs) != 1 || len(as.Rhs) != 1 {
+			return true
+		}
+		v := core.VarOf(info, as.Lhs[0])
+		if v == nil || v == files {
+			return true
+		}
+		if _, isSlice := v.Type().Underlying().(*types.Slice); !isSlice {
+			return true
+		}
+		rhs := ast.Unparen(as.Rhs[0])
+		if se, isSE := rhs.(*ast.SliceExpr); isSE && core.VarOf(info, se.X) == files && se.Low == nil && se.High != nil {
+			if z, isC := core.ConstInt(info, se.High); isC && z == 0 && (kept == nil || kept == v) {
+				kept = v
+				return true
+			}
+		}
+		c, isCall := rhs.(*ast.CallExpr)
+		if !isCall || core.CalleeName(info, c) != "builtin.append" || len(c.Args) != 2 || core.VarOf(info, c.Args[0]) != v {
+			return true
+		}
+		if kept != nil && kept != v {
+			return true
+		}
+		kept = v
+		nApp++
+		name := core.VarOf(info, c.Args[1])
+		fromFiles := false
+		if name != nil {
+			for _, d := range core.DefsOf(info, h.Body, name) {
+				if d.Kind == "range-value" && core.VarOf(info, d.Rhs) == files {
+					fromFiles = true
+				}
+			}
+		}
+		differs := false
+		for _, fct := range g.FactsAt(g.PointOf(as)) {
+			b, isBin := ast.Unparen(fct.Cond).(*ast.BinaryExpr)
+			if !isBin || fct.Tag != nil || (b.Op != token.NEQ && b.Op != token.EQL) {
+				continue
+			}
+			x, y := b.X, b.Y
+			if core.VarOf(info, y) == name {
+				x, y = y, x
+			}
+			if core.VarOf(info, x) == name && constStrIs(info, y, sumName) && (b.Op == token.NEQ) == fct.Val {
+				differs = true
+			}
+		}
+		if !fromFiles || !differs {
+			okAll = false
+		}
+		return true
+	})
+	if kept == nil || nApp != 1 || !okAll {
+		return nil, false
+	}
+	// kept has no other definition
+	for _, d := range core.DefsOf(info, h.Body, kept) {
+		rhs := ast.Unparen(d.Rhs)
+		if _, isSE := rhs.(*ast.SliceExpr); isSE {
+			continue
+		}
+		if c, isCall := rhs.(*ast.CallExpr); isCall && core.CalleeName(info, c) == "builtin.append" {
+			continue
+		}
+		if d.Rhs == nil && d.Kind == "var" {
+			continue
+		}
+		return nil, false
+	}
+	return kept, true
 }
 
 // sumFileName: the constant file name sumfile.Save joins onto the module directory.
